@@ -142,6 +142,13 @@ func H_C19_listener() {
 						}
 					}
 					vfAssert(found, "C19.every-stream-surfaces-once")
+					// (the k-th accepted connection belongs to whichever session's goroutine got
+					// to hand it out first)
+					for i := 0; i < 2; i++ {
+						if w.stream.session == c19.sess[i] {
+							owner[k] = i
+						}
+					}
 				}
 			}
 		}
